@@ -213,6 +213,21 @@ func runProperty(p *Prog, pc *PropConfig, cfg RunConfig, tags string, only strin
 		fv.activeProp = pc.ID
 		fv.setupStream()
 		if err := fv.translate(); err != nil {
+			if c.Flags["replay"] != "" && len(strings.Fields(c.Flags["replay"])) == 1 {
+				// the contract no longer fits the function (a name it mentions is gone, ...). Whether that is
+				// a harmless refactoring or a break of the property is decided by the property-level replay.
+				fv.replayTemplate = c.Flags["replay"]
+				o := &Obligation{Name: fv.Name + "#contract-applies", Kind: "contract", Props: []string{pc.ID}, Where: p.relPos(fn.Pos()), Src: err.Error(),
+					Reach: "true", Goal: "false", Func: fv.Name, fv: fv, candidate: true, Block: -1}
+				rf := replayFile{}
+				tryReplay("/verif", pc.ID, o, &rf)
+				if o.replayed {
+					o.Status = "failed"
+					o.Res = SolveResult{Verdict: VUnknown, All: map[string]string{"contract": err.Error()}}
+					r.extraObl = append(r.extraObl, o)
+					continue
+				}
+			}
 			r.errors = append(r.errors, err.Error())
 			r.reports = append(r.reports, FuncReport{Name: fv.Name, Arith: fv.Mode.String(), Error: err.Error()})
 			continue
